@@ -1082,6 +1082,7 @@ func (sc *serverConn) handleFrame(strm *Stream, fr *FrameHeader) error {
 		if fr.Flags().Has(FlagEndHeaders) {
 			// headers are only finished if there's no previousHeaderBytes
 			strm.headersFinished = len(strm.previousHeaderBytes) == 0
+			strm.blockFields = 0
 			if !strm.headersFinished {
 				return NewGoAwayError(ProtocolError, "END_HEADERS received on an incomplete stream")
 			}
@@ -1167,9 +1168,12 @@ func (sc *serverConn) handleHeaderFrame(strm *Stream, fr *FrameHeader) error {
 		return NewGoAwayError(ProtocolError, "stream that depends on itself")
 	}
 
-	// Only a HEADERS or PUSH_PROMISE frame opens a header block, and only when
-	// there is nothing left over from a frame that cut a field in half.
-	blockStart := fr.Type() != FrameContinuation && len(strm.previousHeaderBytes) == 0
+	// A dynamic table size update is legal for as long as no field of this
+	// header block has been decoded, whichever frame that point falls in: the
+	// HEADERS frame may carry an empty fragment, or cut the first field in half,
+	// in which case the bytes kept for the next frame start with the update
+	// again (applying it twice is harmless).
+	blockStart := strm.blockFields == 0
 
 	// Appending to the stream's own buffer and handing it back keeps the
 	// capacity across frames instead of allocating a header block every time.
@@ -1183,7 +1187,9 @@ func (sc *serverConn) handleHeaderFrame(strm *Stream, fr *FrameHeader) error {
 
 	var err error
 
-	fieldsProcessed := 0
+	fieldsProcessed := strm.blockFields
+
+	defer func() { strm.blockFields = fieldsProcessed }()
 
 	for len(b) > 0 {
 		pb := b
